@@ -41,6 +41,7 @@ type (
 		client          RedisClient
 		disp            *cmdDispatcher
 		cmdQueue        *[]*cmdContext
+		cmdQueueFailed  bool // a command was refused while queueing: EXEC must abort
 		watches         map[watchKey]uint64
 		blocked         int32
 		unblockPending  int32
